@@ -524,7 +524,12 @@ def evaluate_z3_seq_at(
 
     return Some(
         construct_result(
-            lambda args: cast(str, args[0])[cast(int, args[1])], children_results
+            lambda args: (
+                cast(str, args[0])[cast(int, args[1]) : cast(int, args[1]) + 1]
+                if cast(int, args[1]) >= 0
+                else ""
+            ),
+            children_results,
         )
     )
 
